@@ -132,6 +132,16 @@ func c08Subs() []c08Sub {
 	for _, n := range []string{"via", "from", "to", "call-id", "cseq", "max-forwards"} {
 		add("no-"+n, c08DelHdr(n))
 	}
+	// an extra header line with a hostile NAME: one byte outside ASCII (a table indexed by the one-letter compact
+	// name), empty, blank, very long, with a NUL
+	for _, n := range []string{"\xe9", "\x80", "\xff", "\x7f", "\x00", "", " ", "\t", "\xc3\xa9", strings.Repeat("N", 70000), "a b", "=", "%s"} {
+		n := n
+		add("extra-header-name="+clipName(fmt.Sprintf("%q", n)), func(m *WMsg) []byte {
+			c := m.Clone()
+			c.Hdrs = append([]WHdr{{n, "1"}}, c.Hdrs...)
+			return c.Render()
+		})
+	}
 	for _, u := range []string{"sip:", "sip:@", "sip:;", "sip:?", "<", ">", "<>", "<sip:", "sip:a@b>", "\"", "\"unterminated <sip:a@b>", "sip:a@[", "sip:a@b:port", "sip:a@b;;;", "tel:", ";tag=", "<sip:a@b>;tag", "<sip:a@b>;=", ",", "%", "sip:%", strings.Repeat("<", 5000)} {
 		add("from="+clipName(u), c08SetHdr("from", u))
 		add("to="+clipName(u), c08SetHdr("to", u))
